@@ -1,0 +1,49 @@
+//go:build verif
+
+package jsonrpc
+
+// Contracts for gocv (contract-based deductive verification, /verif).
+
+// ---- one request: handled at most once, answered with its own id, notifications not answered ------
+// JSON decoding, reflection and the handlers themselves are dependencies: reflect.Value.Call is an
+// assumed entry point that records its calls; the request sanity check and the argument builder
+// are trusted functions that record theirs.
+//@ opaque type reflect.Value
+//@ ghost func sane(r Request) bool
+//@ func (*Request).isSane
+//@   trusted
+//@   ensures (result == nil) <==> sane(*r)
+//@ func (*Server).buildArguments
+//@   trusted
+//@   logged
+//@ extern func reflect.ValueOf
+//@ extern func reflect.(Value).Call
+//@   logged as Call
+//@ extern func reflect.(Value).Interface
+//@ extern func github.com/NethermindEth/juno/utils.IsNil
+//@ extern func encoding/json.Marshal
+//@ extern func time.Now
+//@ extern func time.Since
+
+//@ func Err
+//@   props C11
+//@   arith int
+//@   ensures result != nil && fresh(result)
+//@   ensures standard: (code == -32700 || code == -32600 || code == -32601 || code == -32602 || code == -32603) ==> result.Code == code
+//@   ensures other: !(code == -32700 || code == -32600 || code == -32601 || code == -32602) ==> result.Code == -32603
+
+//@ func (*Server).handleRequest
+//@   props C11
+//@   arith int
+//@   nosafe
+//@   requires s != nil && req != nil && s.methods != nil && s.listener != nil && s.logger != nil
+//@   modifies *
+//@   assigns calls_Call, arg_Call_in, calls_buildArguments, arg_buildArguments_ctx, arg_buildArguments_params, arg_buildArguments_method
+//@   ensures insane: !old(sane(*req)) ==> result0 == nil && result2 != nil && calls_Call == old(calls_Call)
+//@   ensures sane_no_error: old(sane(*req)) ==> result2 == nil
+//@   ensures unknown_method: old(sane(*req)) && !old(in(s.methods, req.Method)) ==> calls_Call == old(calls_Call) && (result0 != nil ==> result0.Error != nil && result0.Error.Code == -32601)
+//@   ensures at_most_once: calls_Call == old(calls_Call) || calls_Call == old(calls_Call) + 1
+//@   ensures correlated: result0 != nil ==> result0.ID == old(req.ID) && result0.Version == "2.0"
+//@   ensures notification_silent: old(req.ID) == nil && result2 == nil ==> result0 == nil
+//@   ensures answered: old(req.ID) != nil && result2 == nil ==> result0 != nil
+//@   ensures error_or_result: result0 != nil && result0.Error != nil ==> result0.Result == nil
